@@ -41,6 +41,9 @@ pub struct Case {
     silences: Vec<(u8, u16, Mode)>,
     /// (node, at ms); None = nobody is stopped
     stop: Option<(u8, u16)>,
+    /// seeded scheduling noise: every send/dial yields to the scheduler 0..=yields times first
+    #[serde(default)]
+    yields: u8,
 }
 
 fn key_of(k: u8, seed: u8) -> Key {
@@ -50,18 +53,36 @@ fn key_of(k: u8, seed: u8) -> Key {
 fn run_case(c: &Case) -> Verdict {
     let rt = paused_rt();
     let pan0 = panic_count();
-    let mut v = rt.block_on(async { run_async(c).await });
+    let mut v = rt.block_on(async { run_async(c, false).await });
     attribute_task_panics(&mut v, ID, pan0);
     v
 }
 
-async fn run_async(c: &Case) -> Verdict {
+/// The same scenario on 4 worker threads and the real clock: request timeout 200 ms, every offset and delay
+/// divided by 10. Real time is not owned by the harness, so only gross excess is decided: an operation or stop()
+/// that has not returned after 60 s (the whole budget of a lookup is 8.4 s) is a hang.
+fn run_case_threads(c: &Case) -> Verdict {
+    let rt = tokio::runtime::Builder::new_multi_thread().worker_threads(4).enable_all().build().expect("runtime");
+    let pan0 = panic_count();
+    let mut v = rt.block_on(async { run_async(c, true).await });
+    rt.shutdown_timeout(Duration::from_secs(5));
+    attribute_task_panics(&mut v, ID, pan0);
+    v.class("real_threads");
+    v
+}
+
+async fn run_async(c: &Case, real: bool) -> Verdict {
+    let t_req = if real { Duration::from_millis(200) } else { T_REQ };
+    let div: u64 = if real { 10 } else { 1 };
+    // under the real clock only gross excess is decided (see run_case_threads)
+    let hang = if real { Duration::from_secs(60) } else { Duration::ZERO };
     let mut v = Verdict::new();
     let n = (c.n as usize).clamp(2, 12);
-    let hub = Hub::new(c.id_seed as u64 ^ 0x2020, c.jitter_ms as u64);
+    let hub = Hub::new(c.id_seed as u64 ^ 0x2020, c.jitter_ms as u64 / div);
+    hub.set_yield_max(c.yields);
     let mut nodes = Vec::new();
     for i in 0..n {
-        match add_node(&hub, tid_bytes(c.id_seed, i), node_addr(i), None, T_REQ, 8).await {
+        match add_node(&hub, tid_bytes(c.id_seed, i), node_addr(i), None, t_req, 8).await {
             Ok(x) => nodes.push(Arc::new(x)),
             Err(e) => {
                 v.fail(format!("{ID}/harness/node-construction-failed"), e);
@@ -83,15 +104,18 @@ async fn run_async(c: &Case) -> Verdict {
     }
     settle(50).await;
     let t0 = tokio::time::Instant::now();
-    let b_op = T_REQ * (2 * 20 + 2);
+    let b_op = t_req * (2 * 20 + 2);
     let stop_node = c.stop.map(|(s, _)| s as usize % n);
-    let stop_at = c.stop.map(|(_, at)| Duration::from_millis(at as u64));
+    let stop_at = c.stop.map(|(_, at)| Duration::from_millis(at as u64 / div));
     // fault schedule
     for (i, at, m) in &c.silences {
         let hub = hub.clone();
         let tid = nodes[*i as usize % n].tid.clone();
-        let at = Duration::from_millis(*at as u64);
-        let m = *m;
+        let at = Duration::from_millis(*at as u64 / div);
+        let m = match *m {
+            Mode::Slow(ms) => Mode::Slow(ms / div as u32),
+            other => other,
+        };
         tokio::spawn(async move {
             tokio::time::sleep(at).await;
             hub.set_mode(&tid, m);
@@ -102,7 +126,7 @@ async fn run_async(c: &Case) -> Verdict {
     let mut overlap_candidates: Vec<(Duration, usize)> = Vec::new();
     for (oi, op) in c.ops.iter().enumerate() {
         let i = op.node as usize % n;
-        let at = Duration::from_millis(op.at_ms as u64);
+        let at = Duration::from_millis(op.at_ms as u64 / div);
         // operations on the node that gets stopped are only started before the stop
         if Some(i) == stop_node && stop_at.map(|s| at >= s).unwrap_or(false) {
             continue;
@@ -171,7 +195,7 @@ async fn run_async(c: &Case) -> Verdict {
     let mut last_end = Duration::ZERO;
     let mut in_flight_at_stop = false;
     for (oi, i, at, h) in handles {
-        match tokio::time::timeout(at + b_op + Duration::from_secs(1), h).await {
+        match tokio::time::timeout(at + b_op + Duration::from_secs(1) + hang, h).await {
             Err(_) => {
                 v.fail(format!("{ID}/operation/did-not-complete-within-bound"), format!("operation #{oi} ({:?}) on node {i} started at {at:?} had not resolved after {b_op:?} of virtual time", c.ops[oi].kind));
             }
@@ -179,7 +203,7 @@ async fn run_async(c: &Case) -> Verdict {
                 v.fail(format!("{ID}/operation/task-{}", if e.is_panic() { "panicked" } else { "cancelled" }), format!("operation #{oi}: {e}"));
             }
             Ok(Ok((what, took))) => {
-                if took > b_op {
+                if took > b_op + hang {
                     v.fail(format!("{ID}/{what}/took-longer-than-bound"), format!("{took:?} > {b_op:?}"));
                 }
                 last_end = last_end.max(at + took);
@@ -194,12 +218,12 @@ async fn run_async(c: &Case) -> Verdict {
     let mut stopped_info = None;
     if let (Some(h), Some(s)) = (stop_handle, stop_node) {
         let peers = nodes[s].mgr.get_connected_peers().await.len() as u32;
-        let bound = T_REQ * (peers + 2);
-        match tokio::time::timeout(stop_at.unwrap_or_default() + bound + Duration::from_secs(1), h).await {
+        let bound = t_req * (peers + 2);
+        match tokio::time::timeout(stop_at.unwrap_or_default() + bound + Duration::from_secs(1) + hang, h).await {
             Err(_) => v.fail(format!("{ID}/stop/did-not-return-within-bound"), format!("stop() on node {s} with {peers} peers had not returned after {bound:?} of virtual time")),
             Ok(Err(e)) => v.fail(format!("{ID}/stop/task-{}", if e.is_panic() { "panicked" } else { "cancelled" }), e.to_string()),
             Ok(Ok((_ok, took, returned_at))) => {
-                if took > bound {
+                if took > bound + hang {
                     v.fail(format!("{ID}/stop/took-longer-than-bound"), format!("{took:?} > {bound:?} with {peers} peers"));
                 }
                 stopped_info = Some((s, returned_at));
@@ -214,16 +238,21 @@ async fn run_async(c: &Case) -> Verdict {
             tokio::time::sleep(quiet_from - now).await;
         }
         let mark = hub.t();
-        tokio::time::sleep(T_REQ * 10).await;
+        tokio::time::sleep(t_req * 10).await;
         let msg = DhtNetworkMessage { message_id: "after-stop".into(), source: stubs[s].clone(), target: Some(nodes[s].tid.clone()), message_type: DhtMessageType::Request, payload: DhtNetworkOperation::Ping, result: None, timestamp: now_secs(), ttl: 10, hop_count: 0 };
         let frame = wire::encode_wire_message("/dht/1.0.0", postcard::to_stdvec(&msg).unwrap_or_default(), &stubs[s], now_secs());
         hub.inject(&stubs[s], &nodes[s].tid, frame).await;
-        tokio::time::sleep(T_REQ * 2).await;
+        tokio::time::sleep(t_req * 2).await;
         for e in hub.trace() {
             match e {
                 Ev::Frame { t, from, to, dht, .. } if from == nodes[s].tid && t > mark => {
                     let what = dht.as_ref().map(|d| format!("{} {}", d.op, if d.is_request { "request" } else { "response" })).unwrap_or_default();
                     let answered = dht.as_ref().map(|d| d.message_id == "after-stop").unwrap_or(false);
+                    // real clock: a response to a request that arrived just before stop() may still be on its way
+                    // out when the window opens; the property speaks of requests, so only those are decided there
+                    if real && !answered && !dht.as_ref().map(|d| d.is_request).unwrap_or(false) {
+                        continue;
+                    }
                     v.fail(format!("{ID}/stop/{}", if answered { "request-answered-after-stop" } else { "frame-sent-after-stop" }), format!("node {s} sent '{what}' to {}… {:?} after stop() had returned and all its operations had resolved", &to[..8.min(to.len())], t - mark));
                     break;
                 }
@@ -234,6 +263,10 @@ async fn run_async(c: &Case) -> Verdict {
                 _ => {}
             }
         }
+        // "ends its background tasks": every task the manager started holds a reference to it; once stop() has
+        // returned, every operation has resolved and 12 T have passed, only the harness's reference may remain
+        let refs = Arc::strong_count(&nodes[s].mgr);
+        v.check(refs == 1, &format!("{ID}/stop/background-task-still-holds-the-manager"), || format!("node {s}: {refs} references to the DhtNetworkManager remain after stop() (1 = the caller's)"));
         v.class("with_stop");
     }
     // non-trivial: ≥2 overlapping operations and (a silence or a stop during in-flight work)
@@ -243,7 +276,10 @@ async fn run_async(c: &Case) -> Verdict {
     if in_flight_at_stop {
         v.class("stop_with_operation_in_flight");
     }
-    if c.jitter_ms as u64 > T_REQ.as_millis() as u64 {
+    if c.yields > 0 {
+        v.class("seeded_yields");
+    }
+    if c.jitter_ms as u64 > 2000 {
         v.class("delays_beyond_timeout");
     }
     for nd in &nodes {
@@ -255,7 +291,7 @@ async fn run_async(c: &Case) -> Verdict {
 pub fn run(run: &Run) {
     run.assume("single-threaded runtime with a paused clock: time advances only when every task is idle, so delivery order and timeouts are a function of the seed and exceeding a virtual-time bound is a decided violation; OS-thread interleavings are not explored");
     run.assume("'sends no further requests after stop' is evaluated from the moment stop() has returned and every operation started before it has resolved");
-    run.set_rule("scenario", "2..12 real nodes in a generated topology, request timeout T=2 s (virtual); 2..12 (thorough ..40) operations (lookup, put, get, ping, inbound request frames from stub peers) at seeded offsets, per-frame delays up to 1.5 T, peers turned silent/dead at seeded instants, stop() of one node at a seeded instant; non-trivial = ≥2 operations and (a silenced peer or stop() landing while an operation of that node is in flight)");
+    run.set_rule("scenario", "2..12 real nodes in a generated topology, request timeout T=2 s (virtual); 2..12 (thorough ..40) operations (lookup, put, get, ping, inbound request frames from stub peers) at seeded offsets, per-frame delays up to 1.5 T, seeded randomised yields (0..5 per send/dial) in two thirds of the cases, peers turned silent/dead at seeded instants, stop() of one node at a seeded instant; non-trivial = ≥2 operations and (a silenced peer or stop() landing while an operation of that node is in flight)");
     run.max_shrink.store(120, std::sync::atomic::Ordering::Relaxed);
     let sh = shards_for(run.tier);
     let maxops = run.tier.pick(12usize, 40);
@@ -264,15 +300,19 @@ pub fn run(run: &Run) {
         let kind = prop_oneof![3 => any::<u8>().prop_map(Kind::Lookup), 3 => (any::<u8>(), any::<u8>()).prop_map(|(k, l)| Kind::Put(k, l)), 3 => any::<u8>().prop_map(Kind::Get), 1 => any::<u8>().prop_map(Kind::Ping), 2 => (0u8..5, any::<u8>()).prop_map(|(w, k)| Kind::Inbound(w, k))];
         let op = (any::<u8>(), 0u16..4000, kind).prop_map(|(node, at_ms, kind)| OpSpec { node, at_ms, kind });
         let silence = (any::<u8>(), 0u16..5000, prop_oneof![3 => Just(Mode::Silent), 1 => Just(Mode::Dead), 1 => (100u32..2500).prop_map(Mode::Slow)]);
-        (2u8..=12, topo, any::<u8>(), prop_oneof![2 => Just(0u16), 2 => 1u16..1500, 1 => 1500u16..3000], prop::collection::vec(op, 2..=maxops), prop::collection::vec(silence, 0..4), prop::option::weighted(0.7, (any::<u8>(), 0u16..5000)))
-            .prop_map(|(n, topo, id_seed, jitter_ms, ops, silences, stop)| Case { n, topo, id_seed, jitter_ms, ops, silences, stop })
+        (2u8..=12, topo, any::<u8>(), prop_oneof![2 => Just(0u16), 2 => 1u16..1500, 1 => 1500u16..3000], prop::collection::vec(op, 2..=maxops), prop::collection::vec(silence, 0..4), prop::option::weighted(0.7, (any::<u8>(), 0u16..5000)), prop_oneof![1 => Just(0u8), 2 => 1u8..6])
+            .prop_map(|(n, topo, id_seed, jitter_ms, ops, silences, stop, yields)| Case { n, topo, id_seed, jitter_ms, ops, silences, stop, yields })
     };
     run.prop_f("scenario", run.tier.pick(4500, 50000), sh, case, run_case);
+    // the same scenarios under real threads (sampled OS schedules); costs real seconds per case
+    run.set_rule("threads", "the same scenario generator on a 4-worker multi-thread runtime and the real clock (T = 200 ms, offsets and delays ÷10): sampled OS-thread interleavings; decided only as a hang (> 60 s beyond the bound), frames after stop, task panics and leftover manager references");
+    run.prop_f("threads", run.tier.pick(16, 800), sh, case, run_case_threads);
 }
 
 pub fn replay(run: &Run, sub: &str, case: &Value) -> Option<bool> {
     match sub {
         "scenario" => Some(run.eval_case("replay/scenario", &from_value::<Case>(case)?, &run_case)),
+        "threads" => Some(run.eval_case("replay/threads", &from_value::<Case>(case)?, &run_case_threads)),
         _ => None,
     }
 }
